@@ -90,11 +90,13 @@ type retInfo struct {
 	blk   *ssa.BasicBlock
 	kind  retKind
 	code  string
+	val   ssa.Value // forward / maybe: the returned value, rendered on demand (retCode)
 	panic bool
 }
 
 func (p *Program) facts(fn *ssa.Function, mode rejectMode) *FuncFacts {
 	f := &FuncFacts{p: p, fn: fn, c: newCanon(p, fn), mode: mode, retOf: map[*ssa.BasicBlock]*retInfo{}}
+	f.c.owner = f
 	f.findLoops()
 	for _, b := range fn.Blocks {
 		if len(b.Instrs) == 0 || b == fn.Recover {
@@ -103,7 +105,7 @@ func (p *Program) facts(fn *ssa.Function, mode rejectMode) *FuncFacts {
 		switch t := b.Instrs[len(b.Instrs)-1].(type) {
 		case *ssa.Return:
 			ri := &retInfo{ins: t, blk: b}
-			ri.kind, ri.code = f.classify(t)
+			ri.kind, ri.code, ri.val = f.classify(t)
 			f.rets = append(f.rets, ri)
 			f.retOf[b] = ri
 		case *ssa.Panic:
@@ -464,9 +466,9 @@ func unspill(v ssa.Value, blk *ssa.BasicBlock) ssa.Value {
 	return v
 }
 
-func (f *FuncFacts) classify(r0 *ssa.Return) (retKind, string) {
+func (f *FuncFacts) classify(r0 *ssa.Return) (retKind, string, ssa.Value) {
 	if len(r0.Results) == 0 {
-		return retAccept, ""
+		return retAccept, "", nil
 	}
 	r := &ssa.Return{Results: make([]ssa.Value, len(r0.Results))}
 	for i, v := range r0.Results {
@@ -475,50 +477,50 @@ func (f *FuncFacts) classify(r0 *ssa.Return) (retKind, string) {
 	rblk := r0.Block()
 	switch f.mode {
 	case rejNone:
-		return retAccept, ""
+		return retAccept, "", nil
 	case rejErr:
 		v := r.Results[len(r.Results)-1]
 		if k, ok := v.(*ssa.Const); ok && k.Value == nil {
-			return retAccept, ""
+			return retAccept, "", nil
 		}
 		if valueNonNil(f.p, v, rblk) {
-			return retFail, f.errCode(v)
+			return retFail, f.errCode(v), nil
 		}
 		// an unchecked call result returned as is
 		switch x := v.(type) {
 		case *ssa.Call:
-			return retForward, "→" + f.c.term(x)
+			return retForward, "", x
 		case *ssa.Extract:
 			if call, ok := x.Tuple.(*ssa.Call); ok {
-				return retForward, "→" + f.c.term(call)
+				return retForward, "", call
 			}
 		}
-		return retMaybe, f.c.term(v)
+		return retMaybe, "", v
 	case rejFalse, rejTrue:
 		v := r.Results[len(r.Results)-1]
 		if k, ok := v.(*ssa.Const); ok && k.Value != nil && k.Value.Kind() == constant.Bool {
 			bv := constant.BoolVal(k.Value)
 			if bv == (f.mode == rejTrue) {
-				return retFail, fmt.Sprint(bv)
+				return retFail, fmt.Sprint(bv), nil
 			}
-			return retAccept, ""
+			return retAccept, "", nil
 		}
 		switch x := v.(type) {
 		case *ssa.Call:
-			return retForward, "→" + f.c.term(x)
+			return retForward, "", x
 		}
-		return retMaybe, f.c.term(v)
+		return retMaybe, "", v
 	case rejNil:
 		v := r.Results[0]
 		if k, ok := v.(*ssa.Const); ok && k.Value == nil {
-			return retFail, "nil"
+			return retFail, "nil", nil
 		}
 		if valueNonNil(f.p, v, rblk) {
-			return retAccept, ""
+			return retAccept, "", nil
 		}
-		return retMaybe, f.c.term(v)
+		return retMaybe, "", v
 	}
-	return retMaybe, ""
+	return retMaybe, "", nil
 }
 
 // ---- rejecting regions -----------------------------------------------------
@@ -799,9 +801,9 @@ func (f *FuncFacts) Accepts() []*Guard {
 		}
 		switch ri.kind {
 		case retForward:
-			kind = "forward " + ri.code
+			kind = "forward " + f.retCode(ri)
 		case retMaybe:
-			kind = "maybe " + ri.code
+			kind = "maybe " + f.retCode(ri)
 		}
 		if kind == "accept" {
 			// a success return that carries no value: where exactly the function returns is a matter
@@ -875,20 +877,21 @@ func (f *FuncFacts) phiExits(ri *retInfo, rejEdge map[[2]int]bool) []*Guard {
 	var out []*Guard
 	for _, lf := range leaves {
 		ctx := f.context(lf.pred, rejEdge)
-		var atoms []string
+		var base []string
 		for _, c := range ctx {
-			atoms = append(atoms, c.atom)
+			base = append(base, c.atom)
 		}
+		alts := [][]string{nil}
 		if iff := f.ifOf(lf.pred); iff != nil && lf.pred.Succs[0] != lf.pred.Succs[1] {
 			for k, sc := range lf.pred.Succs {
 				if sc == lf.succ && !rejEdge[[2]int{lf.pred.Index, 1 - k}] && !f.isLoopExit(lf.pred, k) {
-					atoms = append(atoms, f.c.condAtom(iff.Cond, k == 0))
+					if ps, ok := f.condPaths(iff.Cond, k == 0, false, 0); ok && len(ps) > 0 {
+						alts = ps
+					} else {
+						alts = [][]string{{f.c.condAtom(iff.Cond, k == 0)}}
+					}
 				}
 			}
-		}
-		atoms = simplifyAtoms(atoms)
-		if len(atoms) == 0 {
-			atoms = []string{"always"}
 		}
 		var vals []string
 		for i, v := range ri.ins.Results {
@@ -901,7 +904,13 @@ func (f *FuncFacts) phiExits(ri *retInfo, rejEdge map[[2]int]bool) []*Guard {
 				vals = append(vals, f.c.term(unspill(v, ri.blk)))
 			}
 		}
-		out = append(out, &Guard{Fn: funcName(f.fn), Atoms: atoms, Code: "accept <- (" + strings.Join(vals, ", ") + ")", Pos: f.blockPos(lf.pred), blk: lf.pred})
+		for _, alt := range alts {
+			atoms := simplifyAtoms(append(append([]string{}, base...), alt...))
+			if len(atoms) == 0 {
+				atoms = []string{"always"}
+			}
+			out = append(out, &Guard{Fn: funcName(f.fn), Atoms: atoms, Code: "accept <- (" + strings.Join(vals, ", ") + ")", Pos: f.blockPos(lf.pred), blk: lf.pred})
+		}
 	}
 	return out
 }
@@ -1154,4 +1163,15 @@ func inductionStart(v ssa.Value) (*big.Int, bool) {
 		return nil, false
 	}
 	return start, true
+}
+
+// retCode: the code of a return; for forwarded / undecided returns the returned term.
+func (f *FuncFacts) retCode(ri *retInfo) string {
+	if ri.val == nil {
+		return ri.code
+	}
+	if ri.kind == retForward {
+		return "→" + f.c.term(ri.val)
+	}
+	return f.c.term(ri.val)
 }
